@@ -367,14 +367,20 @@ void
 vbi_send_event(vbi_decoder *vbi, vbi_event *ev)
 {
 	struct event_handler *eh;
+	vbi_event e;
+
+	/* Handlers get a private copy. A handler may (un)register
+	   handlers, and vbi_event_enable() clears vbi->network, which
+	   is the event when we are sending VBI_EVENT_NETWORK(_ID). */
+	e = *ev;
 
 	pthread_mutex_lock(&vbi->event_mutex);
 
 	for (eh = vbi->handlers; eh; eh = vbi->next_handler) {
 		vbi->next_handler = eh->next;
 
-		if (eh->event_mask & ev->type)
-			eh->handler(ev, eh->user_data);
+		if (eh->event_mask & e.type)
+			eh->handler(&e, eh->user_data);
 	}
 
 	pthread_mutex_unlock(&vbi->event_mutex);
